@@ -34,6 +34,7 @@ RULE += ' Round 9: lookups that are permutations of 0..m-1 (both ends in place o
 RULE += ' Round 10: model.spike_clusters replaced by a new array before queries; column-major 2-D values in grouped_mean.'
 RULE += " Round 11: requests of 36-41 ids that include absent negative ids; runs of _index_of calls whose largest lookup id grows and shrinks by one; grouped_mean under np.errstate(all='raise') with warnings as errors."
 RULE += " Round 12: lookups ending in -1 (the library's own form); groups that are overlapping windows of one array; a model with 66000 spikes of one template under 16-bit ids."
+RULE += ' Round 13: values with two trailing axes in grouped_mean; groups of different integer widths and an empty float group after an integer one.'
 EXHAUSTIVE = {'quick': True, 'thorough': True}
 EXHAUSTIVE_SCOPE = {'quick': 'length <= 6 over 4 ids', 'thorough': 'length <= 8 over 4 ids, <= 6 over 5 ids'}
 FLOORS = {'quick': {'evaluations': 40000, 'distinct_nontrivial': 20000,
